@@ -108,7 +108,7 @@ def tasks_for(run, module, prop, quick_depth=2, thorough_depth=3, lf_quick=0, lf
             tasks.append({"rec": rec, "depth": 2 if quick else 3, "module": module, "prop": prop, "tier": run.tier,
                           "line_fault_depth": lf_quick if quick else lf_thorough, "inits": 2, "max_states": 1500 if quick else 6000})
     if prop in ("C04",):
-        for rec in G.validated_item_records() + G.failing_invalidation_records():
+        for rec in G.validated_item_records() + G.failing_invalidation_records() + G.empty_state_records() + G.dnc_class_records():
             tasks.append({"rec": rec, "depth": 2, "module": module, "prop": prop, "tier": run.tier,
                           "line_fault_depth": 0, "inits": 2, "max_states": 800})
     if prop in ("C01", "C04"):
